@@ -330,7 +330,9 @@ impl TransportManagerHandle {
     ///
     /// Returns an error if address it not valid.
     pub fn dial_address(&self, address: Multiaddr) -> Result<(), ImmediateDialError> {
-        if !address.iter().any(|protocol| std::matches!(protocol, Protocol::P2p(_))) {
+        // The address must end with `/p2p/<peer id>`: that is what `TransportManager::dial_address`
+        // requires, and it is the peer a failure of the queued dial is reported for.
+        if PeerId::try_from_multiaddr(&address).is_none() {
             return Err(ImmediateDialError::PeerIdMissing);
         }
 
